@@ -11,7 +11,8 @@ from ..rules.pC28 import MiniPy, NS, OPQ, Env, Closure, Raised, Stopped, Unsuppo
 ID = 'C28'
 TECHNIQUE = ('table comparison against the installed CPython headers and the frozen data-model table; evaluation of the compiler\'s '
              'generator functions (generate_richcmp_function, generate_binop_function, BinopSlot.__init__) by a small AST evaluator on mock '
-             'scopes, followed by evaluation of the emitted C switch on the three outcomes of a total order')
+             'scopes, followed by evaluation of the emitted C switch on the three outcomes of a total order; path exploration of the three '
+             'instantiations of the BinopSlot template (mini Tempita expansion, #if arms enumerated, type-test flags forked over {0,1})')
 DECIDES = ('(ORD) every slot table of TypeSlots.SlotTable lists its rows in the member order of the CPython struct it initialises '
            '(PyNumberMethods, PySequenceMethods, PyMappingMethods, PyAsyncMethods, PyBufferProcs, PyTypeObject from the first table row on), each '
            'SuiteSlot pairs the table with the struct its tp_as_* member points to, BinopSlot rows only occur in the number suite; '
@@ -23,8 +24,11 @@ DECIDES = ('(ORD) every slot table of TypeSlots.SlotTable lists its rows in the 
            '__ne__ from __eq__, the derived orderings), passes NotImplemented through, calls methods with (o1, o2) in order, and handles every op that the '
            'equivalent Python class handles; '
            '(TPL) every variable the BinopSlot template reads is supplied by generate_binop_function, slot_type and the arity of the generated function are those of '
-           'the header typedef of the slot, call_left/call_right call the left/reflected method with (left, right)/(right, left) and the base-type helper with (left, right).')
-NOT_DECIDED = ('the dispatch logic inside the BinopSlot template (which of call_left/call_right runs first for subclass operands) and call order in general; '
+           'the header typedef of the slot, call_left/call_right call the left/reflected method with (left, right)/(right, left) and the base-type helper with (left, right); '
+           '(DISP) on every path of the generated slot function, for overloads (1,1), (1,0), (0,1): call_left and call_right are each evaluated at most once, a user method only '
+           'under a flag computed from a type test of its self operand, and the function does not give up with NotImplemented while a set flag\'s call has not been tried.')
+NOT_DECIDED = ('which of call_left/call_right runs first inside the BinopSlot template for subclass operands, and whether a NotImplemented result of the first call is really '
+               'followed by the second (a `return res` without the test is not seen); same-exact-type operands (rule C28-SAME in rules/sC28.py is a pending finding and not registered); '
                'which of __eq__/__ne__ is consulted by a derived ordering; slot inheritance and the type-spec path (CYTHON_USE_TYPE_SPECS) beyond slot names; '
                'in-place operator fallback (done by CPython itself); the choice of the total_ordering root (max of names, as functools).')
 ASSUMPTIONS = ['the installed CPython headers (sysconfig include dir) describe the struct layout the generated C is compiled against',
@@ -60,7 +64,16 @@ MUTATIONS = [
     ('Cython/Compiler/ModuleNode.py', 'generate_binop_function: "call_right": call_slot_method(slot.left_slot.method_name, reverse=True); overloads_left computed from right_slot', 'C28-TPL'),
     ('Cython/Compiler/ModuleNode.py', 'generate_binop_function: base-type helper called with (..., right, left)', 'C28-TPL'),
     ('Cython/Utility/ExtensionTypes.c', 'BinopSlot: {{extra_arg_decl}} removed from the slot function head; {{overloads_left}} misspelt; head parameters (right, left)', 'C28-TPL'),
+    ('Cython/Utility/ExtensionTypes.c', 'seed C28b: `maybe_self_is_right = 0;` after the failed reflected-first call removed', 'C28-DISP call_right:once'),
+    ('Cython/Utility/ExtensionTypes.c', 'BinopSlot: final `if (maybe_self_is_right)` -> `if (maybe_self_is_left)`', 'C28-DISP self + tried'),
+    ('Cython/Utility/ExtensionTypes.c', 'BinopSlot: the `{{if overloads_left}} maybe_self_is_right = ...{{endif}}` block deleted', 'C28-DISP tried (call_right unreachable)'),
+    ('Cython/Utility/ExtensionTypes.c', 'BinopSlot: call_left block duplicated', 'C28-DISP call_left:once'),
+    ('Cython/Utility/ExtensionTypes.c', 'BinopSlot: reflected-first branch guarded by maybe_self_is_left', 'C28-DISP call_right:self'),
+    ('Cython/Utility/ExtensionTypes.c', 'BinopSlot: maybe_self_is_right computed from PyType_IsSubtype(Py_TYPE(left), ...)', 'C28-DISP call_right:self'),
+    ('Cython/Utility/ExtensionTypes.c', 'BinopSlot: `return res;` right after call_left (no NotImplemented test)', 'MISSED (see NOT_DECIDED)'),
     # behaviour-preserving edits that stay silent
+    ('Cython/Utility/ExtensionTypes.c', 'BinopSlot: flags and res renamed; reset replaced by finishing inside the branch (`res = call_left; return res;`); final if inverted with early return; `res == Py_NotImplemented` with else-return', 'silent'),
+    ('Cython/Utility/ExtensionTypes.c', 'BinopSlot: the FINDING_1 patch (`same_type` local, `&& !same_type`, `|| same_type`)', 'silent'),
     ('Cython/Compiler/ModuleNode.py', 'rename locals comp_entry/invert_comp/ordering_source/cmp_type in generate_richcmp_function', 'silent'),
     ('Cython/Compiler/ModuleNode.py', 'reorder rows of TOTAL_ORDERING; `if invert_equals is not None` -> `in (True, False)`; "order_res ? Py_False : Py_True" -> "(!order_res) ? Py_True : Py_False"', 'silent'),
     ('Cython/Compiler/ModuleNode.py', 'case label emitted with an f-string; "PyObject *ret;" + "ret = f(..)" merged into one declaration with initialiser', 'silent'),
